@@ -96,6 +96,13 @@ def build_harness(bin, profile="debug"):
     with Lock("cargo-" + _repo_tag()):
         hdir = harness_dir()
         target = os.path.join(CACHE, "target-" + _repo_tag())
+        if _repo_tag() != "default" and not os.path.exists(target):
+            # a run against another copy of the repository starts from the third-party
+            # artefacts already built for /repo (the copy's own crates are rebuilt: their paths differ)
+            base = os.path.join(CACHE, "target-default")
+            if os.path.isdir(base):
+                with Lock("cargo-default"):
+                    sh(["cp", "-a", "--reflink=auto", base, target], timeout=600)
         lock = os.path.join(hdir, "Cargo.lock")
         src = os.path.join(REPO, "Cargo.lock")
         if not os.path.exists(lock):
